@@ -46,6 +46,14 @@ impl Acc {
 pub struct Expect {
     pub responses: Vec<AResponse>,
     pub ends: Vec<Terminal>,
+    /// a second, equally faithful reading of the stream (C09: field names outside today's alphabet)
+    pub alt: Option<Box<Expect>>,
+}
+
+impl Expect {
+    fn matches(&self, s: &Session) -> bool {
+        s.responses == self.responses && self.ends.contains(&s.end) || self.alt.as_ref().is_some_and(|a| a.matches(s))
+    }
 }
 
 fn case_json(kind: &str, stream: &[u8], cuts: &[usize], flavor: Flavor, mask: u64, end: EndAnswer) -> Value {
@@ -67,13 +75,16 @@ fn describe_session(s: &Session) -> String {
 
 /// Run one session and compare with the expectation. `sig` names the violation class.
 #[allow(clippy::too_many_arguments)]
+/// mask bit: after every cancellation a command is sent before receive() is called again
+pub const SEND_AFTER_CANCEL: u64 = 1 << 47;
+
 pub fn check_session(kind: &str, stream: &[u8], cuts: &[usize], flavor: Flavor, mask: u64, end: EndAnswer, expect: &Expect, probe: bool, acc: &mut Acc, sigf: &dyn Fn(&Session) -> String) {
-    let script = Script { stream, cuts, end, pending_mask: mask & 0xffff_ffff, cancel_mask: (mask >> 32) & 0xffff, cancel_twice_mask: mask >> 48 };
+    let script = Script { stream, cuts, end, pending_mask: mask & 0xffff_ffff, cancel_mask: (mask >> 32) & 0x7fff, cancel_twice_mask: mask >> 48, send_after_cancel: mask & SEND_AFTER_CANCEL != 0 };
     let (s, st) = run_session(flavor, &script, expect.responses.len() + 2, probe);
     acc.sessions += 1;
     acc.reads += st.reads.get();
     acc.max_buf = acc.max_buf.max(st.max_buf.get());
-    let ok = s.responses == expect.responses && expect.ends.contains(&s.end);
+    let ok = expect.matches(&s);
     // bounded reads: one per segment, plus one per receive call, plus buffer clipping
     let seg = cuts.len() as u64 + 1;
     // (one per byte is the most any buffer-growth policy can need; an unbounded read loop is
@@ -195,8 +206,10 @@ fn long_segsets(stream: &[u8], thorough: bool) -> Vec<Vec<usize>> {
 fn multi_segsets(stream: &[u8], bounds: &[usize]) -> Vec<Vec<usize>> {
     let n = stream.len();
     let mut out: Vec<Vec<usize>> = vec![vec![]];
-    for size in [7usize, 1000, 1460, 4095, 4096, 4097, 8192, 16384] {
-        out.push(chunked(n, size));
+    for size in [7usize, 1000, 1460, 4095, 4096, 4097, 8192, 16384, 32768, 65536] {
+        if size < n {
+            out.push(chunked(n, size));
+        }
     }
     let mut pts: Vec<usize> = bounds.to_vec();
     // payload starts: the byte after each `binary: N` header line
@@ -272,11 +285,16 @@ pub fn run_c03(tier: Tier) -> i32 {
             if nontrivial {
                 acc.nontrivial += 1;
             }
-            let expect = Expect { responses: expected, ends: vec![Terminal::Clean] };
+            let expect = Expect { responses: expected, ends: vec![Terminal::Clean], alt: None };
             let sets = if stream.len() > 600 { long_segsets(&stream, tier == Tier::Thorough) } else { segsets(stream.len(), all_upto, two_upto, three_upto) };
             for cuts in &sets {
                 for flavor in [Flavor::Sync, Flavor::Async] {
                     check_session("C03", &stream, cuts, flavor, 0, EndAnswer::Eof, &expect, false, &mut acc, &default_sig("C03"));
+                }
+                // a receive() that is abandoned at its second read, a command sent, and receive()
+                // called again (the idle/noidle pattern): what had been decoded must not be lost
+                if !cuts.is_empty() && cuts.len() <= 2 {
+                    check_session("C03", &stream, cuts, Flavor::Async, (0b10 << 32) | SEND_AFTER_CANCEL, EndAnswer::Eof, &expect, false, &mut acc, &default_sig("C03"));
                 }
             }
             if acc.samples.is_empty() && stream.len() > 20 && stream.len() < 80 {
@@ -294,7 +312,7 @@ pub fn run_c03(tier: Tier) -> i32 {
             let expected: Vec<AResponse> = ws.iter().map(|w| w.expected()).collect();
             acc.streams += 1;
             acc.nontrivial += 1;
-            let expect = Expect { responses: expected, ends: vec![Terminal::Clean] };
+            let expect = Expect { responses: expected, ends: vec![Terminal::Clean], alt: None };
             let sets = multi_segsets(&stream, &bounds);
             for cuts in &sets {
                 for flavor in [Flavor::Sync, Flavor::Async] {
@@ -361,9 +379,9 @@ fn corruptions(stream: &[u8], subs: &[u8]) -> Vec<Vec<u8>> {
 fn c02_check_stream(stream: &[u8], sets: &[Vec<usize>], pendings: &[u64], acc: &mut Acc) {
     acc.streams += 1;
     // baseline: blocking connection, one read
-    let script = Script { stream, cuts: &[], end: EndAnswer::Eof, pending_mask: 0, cancel_mask: 0, cancel_twice_mask: 0 };
+    let script = Script { stream, cuts: &[], end: EndAnswer::Eof, pending_mask: 0, cancel_mask: 0, cancel_twice_mask: 0, send_after_cancel: false };
     let (base, _) = run_session(Flavor::Sync, &script, 64, false);
-    let expect = Expect { responses: base.responses.clone(), ends: vec![base.end.clone()] };
+    let expect = Expect { responses: base.responses.clone(), ends: vec![base.end.clone()], alt: None };
     if matches!(base.end, Terminal::Panic(_) | Terminal::Hang) {
         // C09's business; still a difference if other segmentations behave differently
     }
@@ -376,6 +394,8 @@ fn c02_check_stream(stream: &[u8], sets: &[Vec<usize>], pendings: &[u64], acc: &
             // the same positions, but the receive() future is dropped there and receive() called anew
             check_session("C02", stream, cuts, Flavor::Async, m << 32, EndAnswer::Eof, &expect, false, acc, &|_s| "C02/cancellation-dependent".to_string());
             check_session("C02", stream, cuts, Flavor::Async, (m & 0b111) << 48, EndAnswer::Eof, &expect, false, acc, &|_s| "C02/cancellation-dependent".to_string());
+            // … and a command is sent on the connection before receive() is called again
+            check_session("C02", stream, cuts, Flavor::Async, ((m & 0x7fff) << 32) | SEND_AFTER_CANCEL, EndAnswer::Eof, &expect, false, acc, &|_s| "C02/cancellation-dependent".to_string());
         }
     }
 }
@@ -501,7 +521,7 @@ pub fn run_c10(tier: Tier) -> i32 {
                 let prefix = &stream[..p];
                 let k = bounds.iter().filter(|&&b| b <= p).count();
                 let on_boundary = p == 0 || bounds.contains(&p);
-                let expect = Expect { responses: expected[..k].to_vec(), ends: vec![if on_boundary { Terminal::Clean } else { Terminal::UnexpectedEof }] };
+                let expect = Expect { responses: expected[..k].to_vec(), ends: vec![if on_boundary { Terminal::Clean } else { Terminal::UnexpectedEof }], alt: None };
                 acc.nontrivial += 1;
                 let mut sets: Vec<Vec<usize>> = vec![vec![], chunked(p, 1)];
                 if p <= 200 {
@@ -527,6 +547,10 @@ pub fn run_c10(tier: Tier) -> i32 {
                     // … dropped twice in a row at the same read
                     for cm in [0b1u64, 0b10, 0b100] {
                         check_session("C10", prefix, cuts, Flavor::Async, cm << 48, EndAnswer::Eof, &expect, false, &mut acc, &sigf);
+                    }
+                    // … and a command sent before receive() is called again
+                    for cm in [0b1u64, 0b10, 0b11] {
+                        check_session("C10", prefix, cuts, Flavor::Async, (cm << 32) | SEND_AFTER_CANCEL, EndAnswer::Eof, &expect, false, &mut acc, &sigf);
                     }
                 }
             }
@@ -561,7 +585,7 @@ pub fn run_c10(tier: Tier) -> i32 {
                 let prefix = &stream[..p];
                 let k = bounds.iter().filter(|&&b| b <= p).count();
                 let on_boundary = p == 0 || bounds.contains(&p);
-                let expect = Expect { responses: expected[..k].to_vec(), ends: vec![if on_boundary { Terminal::Clean } else { Terminal::UnexpectedEof }] };
+                let expect = Expect { responses: expected[..k].to_vec(), ends: vec![if on_boundary { Terminal::Clean } else { Terminal::UnexpectedEof }], alt: None };
                 acc.nontrivial += 1;
                 let sigf = |s: &Session| match (&s.end, on_boundary) {
                     (Terminal::Clean, false) => "C10/unclean-eof-reported-clean".to_string(),
@@ -584,7 +608,7 @@ pub fn run_c10(tier: Tier) -> i32 {
         for p in 0..g.len() {
             for cuts in all_compositions(p.max(1)) {
                 for flavor in [Flavor::Sync, Flavor::Async] {
-                    let script = Script { stream: &g[..p], cuts: &cuts, end: EndAnswer::Eof, pending_mask: 0, cancel_mask: 0, cancel_twice_mask: 0 };
+                    let script = Script { stream: &g[..p], cuts: &cuts, end: EndAnswer::Eof, pending_mask: 0, cancel_mask: 0, cancel_twice_mask: 0, send_after_cancel: false };
                     let (r, st) = run_connect(flavor, &script);
                     gacc.sessions += 1;
                     gacc.reads += st.reads.get();
@@ -608,13 +632,22 @@ pub fn run_c10(tier: Tier) -> i32 {
 // C09
 
 fn c09_expect(stream: &[u8]) -> Expect {
-    let d = ref_decode(stream);
-    let ends = match d.end {
-        RefEnd::Clean => vec![Terminal::Clean],
-        RefEnd::Malformed => vec![Terminal::Invalid],
-        RefEnd::Early => vec![Terminal::UnexpectedEof, Terminal::Invalid],
+    let of = |d: crate::mpdref::wire::RefDecoded| {
+        let ends = match d.end {
+            RefEnd::Clean => vec![Terminal::Clean],
+            RefEnd::Malformed => vec![Terminal::Invalid],
+            RefEnd::Early => vec![Terminal::UnexpectedEof, Terminal::Invalid],
+        };
+        Expect { responses: d.responses, ends, alt: None }
     };
-    Expect { responses: d.responses, ends }
+    let mut strict = of(ref_decode(stream));
+    // field names outside the library's present alphabet: rejecting the line and delivering it
+    // verbatim are both right (consistently for the whole stream)
+    let lenient = of(crate::mpdref::wire::ref_decode_with(stream, true));
+    if lenient.responses != strict.responses || lenient.ends != strict.ends {
+        strict.alt = Some(Box::new(lenient));
+    }
+    strict
 }
 
 fn c09_sig(stream: &[u8]) -> impl Fn(&Session) -> String + '_ {
@@ -759,7 +792,7 @@ pub fn run_c09(tier: Tier) -> i32 {
                 // the same bytes as a greeting
                 for flavor in [Flavor::Sync, Flavor::Async] {
                     for cuts in &sets {
-                        let script = Script { stream: s, cuts, end: EndAnswer::Eof, pending_mask: 0, cancel_mask: 0, cancel_twice_mask: 0 };
+                        let script = Script { stream: s, cuts, end: EndAnswer::Eof, pending_mask: 0, cancel_mask: 0, cancel_twice_mask: 0, send_after_cancel: false };
                         let (r, st) = run_connect(flavor, &script);
                         acc.sessions += 1;
                         acc.reads += st.reads.get();
@@ -818,11 +851,30 @@ pub fn run_c09(tier: Tier) -> i32 {
     // the check
     let edges = numeric_edges();
     let acc_c = run_edges_in_child(tier);
-    let mut acc = acc_a.merge(acc_b).merge(acc_c);
-    acc.samples.push(json!({"all_strings_over": show_bytes(alphabet), "max_len": maxlen, "count": strings.len(), "corruption_pool": pool.len(), "numeric_edge_streams": edges.len()}));
+    // (d) well-formed streams are peer bytes too: large components with more responses pipelined
+    // behind them, in big and small reads (buffer growth / hand-back paths)
+    let bigs = multi_binary_streams(2);
+    let acc_d = bigs
+        .par_iter()
+        .map(|(_, ws)| {
+            let mut acc = Acc::default();
+            let (stream, _) = encode_items(ws, BinPos::Last);
+            let n = stream.len();
+            let mut sets: Vec<Vec<usize>> = vec![vec![]];
+            for size in [1000usize, 4096, 4097, 8192, 65536] {
+                if size < n {
+                    sets.push(chunked(n, size));
+                }
+            }
+            c09_check_stream(&stream, &sets, &mut acc);
+            acc
+        })
+        .reduce(Acc::default, Acc::merge);
+    let mut acc = acc_a.merge(acc_b).merge(acc_c).merge(acc_d);
+    acc.samples.push(json!({"all_strings_over": show_bytes(alphabet), "max_len": maxlen, "count": strings.len(), "corruption_pool": pool.len(), "numeric_edge_streams": edges.len(), "large_well_formed_streams": bigs.len()}));
     let cov = proto_coverage(
         &acc,
-        "(a) every byte string of length <= max_len over 10 protocol symbols, as response stream and as greeting; (b) every single-byte substitution by 7 bytes / deletion / insertion / truncation of a pool of grammar streams; (c) binary: N and ACK [N@M] for 12 numeric edge spellings; under one-read, byte-at-a-time and single-cut segmentations, both flavours, inside catch_unwind; non-trivial = streams that are not a clean sequence of well-formed responses",
+        "(a) every byte string of length <= max_len over 10 protocol symbols, as response stream and as greeting; (b) every single-byte substitution by 7 bytes / deletion / insertion / truncation of a pool of grammar streams; (c) binary: N and ACK [N@M] for 12 numeric edge spellings; (d) well-formed streams of <=2 large binary components (10..140000 bytes) with responses pipelined behind them, in one read and in 1000..65536-byte reads; under one-read, byte-at-a-time and single-cut segmentations, both flavours, inside catch_unwind; non-trivial = streams that are not a clean sequence of well-formed responses",
         json!({"max_len": maxlen}),
     );
     finish(&ctx, cov, acc.viol)
@@ -895,7 +947,7 @@ pub fn c18_proto(tier: Tier) -> Acc {
                 };
                 for cuts in &sets {
                     for flavor in [Flavor::Sync, Flavor::Async] {
-                        let script = Script { stream: s, cuts, end: EndAnswer::Eof, pending_mask: 0, cancel_mask: 0, cancel_twice_mask: 0 };
+                        let script = Script { stream: s, cuts, end: EndAnswer::Eof, pending_mask: 0, cancel_mask: 0, cancel_twice_mask: 0, send_after_cancel: false };
                         let (r, st) = run_connect(flavor, &script);
                         acc.sessions += 1;
                         acc.reads += st.reads.get();
@@ -937,7 +989,7 @@ pub fn replay(id: &str, case: &Value) -> i32 {
     let mask = case["pending_mask"].as_u64().unwrap_or(0);
     println!("replay {id}: {flavor:?}, {} bytes {:?}, cuts {:?}, pending mask {mask:#b}", stream.len(), show_bytes(&stream[..stream.len().min(300)]), cuts);
     if case["kind"].as_str() == Some("greeting") {
-        let script = Script { stream: &stream, cuts: &cuts, end: EndAnswer::Eof, pending_mask: mask & 0xffff_ffff, cancel_mask: (mask >> 32) & 0xffff, cancel_twice_mask: mask >> 48 };
+        let script = Script { stream: &stream, cuts: &cuts, end: EndAnswer::Eof, pending_mask: mask & 0xffff_ffff, cancel_mask: (mask >> 32) & 0xffff, cancel_twice_mask: mask >> 48, send_after_cancel: false };
         let (r, st) = run_connect(flavor, &script);
         let want = match ref_greeting(&stream) {
             RefGreeting::Version(v) => ConnectResult::Version(v),
@@ -947,15 +999,15 @@ pub fn replay(id: &str, case: &Value) -> i32 {
         println!("  connect -> {r:?} after {} reads; reference says {want:?}", st.reads.get());
         return if r == want { println!("replay: property holds on this case"); 0 } else { println!("replay: VIOLATION"); 1 };
     }
-    let script = Script { stream: &stream, cuts: &cuts, end: EndAnswer::Eof, pending_mask: mask & 0xffff_ffff, cancel_mask: (mask >> 32) & 0xffff, cancel_twice_mask: mask >> 48 };
+    let script = Script { stream: &stream, cuts: &cuts, end: EndAnswer::Eof, pending_mask: mask & 0xffff_ffff, cancel_mask: (mask >> 32) & 0xffff, cancel_twice_mask: mask >> 48, send_after_cancel: false };
     let (s, st) = run_session(flavor, &script, 64, id == "C09");
     println!("  session: {}", describe_session(&s));
     println!("  reads: {}", st.reads.get());
     let expect = if id == "C02" {
-        let b = Script { stream: &stream, cuts: &[], end: EndAnswer::Eof, pending_mask: 0, cancel_mask: 0, cancel_twice_mask: 0 };
+        let b = Script { stream: &stream, cuts: &[], end: EndAnswer::Eof, pending_mask: 0, cancel_mask: 0, cancel_twice_mask: 0, send_after_cancel: false };
         let (base, _) = run_session(Flavor::Sync, &b, 64, false);
         println!("  baseline (blocking, one read): {}", describe_session(&base));
-        Expect { responses: base.responses, ends: vec![base.end] }
+        Expect { responses: base.responses, ends: vec![base.end], alt: None }
     } else {
         let mut e = c09_expect(&stream);
         if id != "C09" && e.ends.len() == 2 {
